@@ -282,14 +282,32 @@ Proof. intros. apply Z.eqb_eq. lia. Qed.
 Lemma exp_roundtrip' : forall e now, Z.eqb e (now + (e - now)) = true.
 Proof. intros. apply Z.eqb_eq. lia. Qed.
 
-Theorem views_agree : forall has_token at_jwt s now, all_agree (all_views has_token at_jwt s now now) = true.
+Ltac views_tac s :=
+  unfold view_agree, forget_idt_exp, view_session, view_token_response, view_introspection, view_userinfo,
+    view_id_token, view_rp, view_jwt_access_token, expires_in;
+  cbn [v_client v_sub v_scope v_nonce v_at_exp v_idt_exp opt_agree];
+  rewrite ?str_eqb_refl, ?list_str_eqb_refl, ?opt_agree_str_refl, ?Z.eqb_refl, ?exp_roundtrip, ?exp_roundtrip';
+  destruct (s_nonce s); reflexivity.
+
+(* flows that pass the token endpoint: every view agrees with every other *)
+Theorem views_agree : forall at_jwt s now, all_agree (all_views true at_jwt s now now) = true.
 Proof.
-  intros has_token at_jwt s now. unfold all_views.
-  destruct has_token, at_jwt; cbn [app all_agree forallb];
-    unfold view_agree, view_session, view_session_no_token, view_token_response, view_introspection, view_userinfo,
-      view_id_token, view_rp, view_jwt_access_token, expires_in; cbn [v_client v_sub v_scope v_nonce v_at_exp v_idt_exp opt_agree];
-    rewrite ?str_eqb_refl, ?list_str_eqb_refl, ?opt_agree_str_refl, ?Z.eqb_refl, ?exp_roundtrip, ?exp_roundtrip';
-    destruct (s_nonce s); reflexivity.
+  intros at_jwt s now. unfold all_views. destruct at_jwt; cbn [app all_agree forallb]; views_tac s.
+Qed.
+
+(* flows without the token endpoint (response type id_token): everything agrees except the ID Token expiry the
+   session database records (0) *)
+Theorem views_agree_implicit : forall at_jwt s now,
+  all_agree (map forget_idt_exp (all_views false at_jwt s now now)) = true
+  /\ all_agree [view_id_token s; view_rp false s now now] = true.
+Proof.
+  intros at_jwt s now. unfold all_views. split; cbn [map app all_agree forallb]; views_tac s.
+Qed.
+
+Theorem views_agree_implicit_refuted :
+  exists s, all_agree (all_views false false s 0 0) = false.
+Proof.
+  exists (mkSession (PS "c") (PS "s") [PS "openid"] (Some (PS "n")) 0 300). vm_compute. reflexivity.
 Qed.
 
 (* every view shows nothing but fields of the one record *)
@@ -299,11 +317,11 @@ Definition projects (s : session) (v : view) : Prop :=
   /\ (match v_nonce v with Some n => s_nonce s = Some n | None => True end)
   /\ opt_is (v_at_exp v) (s_at_exp s) /\ opt_is (v_idt_exp v) (s_idt_exp s).
 
-Theorem views_project : forall has_token at_jwt s now v,
-  In v (all_views has_token at_jwt s now now) -> projects s v.
+Theorem views_project : forall at_jwt s now v,
+  In v (all_views true at_jwt s now now) -> projects s v.
 Proof.
-  intros has_token at_jwt s now v H. unfold all_views in H.
-  destruct has_token, at_jwt; cbn in H;
+  intros at_jwt s now v H. unfold all_views in H.
+  destruct at_jwt; cbn in H;
     repeat (destruct H as [<-|H]; [unfold projects; cbn; unfold expires_in;
                                    repeat split; try reflexivity; try lia; destruct (s_nonce s); reflexivity|]);
     contradiction.
@@ -323,15 +341,18 @@ Section Composed.
              (now at_life idt_life : Z) : session :=
     mkSession client (sub_of user client) (filter_scopes client req_scope) nonce (now + at_life) (now + idt_life).
 
-  Theorem views_model : forall user client req_scope nonce now at_life idt_life has_token at_jwt,
+  Theorem views_model : forall user client req_scope nonce now at_life idt_life at_jwt,
     let s := authorize user client req_scope nonce now at_life idt_life in
-    all_agree (all_views has_token at_jwt s now now) = true
-    /\ (forall v, In v (all_views has_token at_jwt s now now) -> projects s v)
-    /\ v_sub (view_rp has_token s now now) = Some (sub_of user client)
-    /\ v_scope (view_rp has_token s now now) = Some (filter_scopes client req_scope)
-    /\ v_nonce (view_rp has_token s now now) = nonce
-    /\ v_client (view_rp has_token s now now) = Some client.
+    all_agree (all_views true at_jwt s now now) = true
+    /\ (forall v, In v (all_views true at_jwt s now now) -> projects s v)
+    /\ all_agree (map forget_idt_exp (all_views false at_jwt s now now)) = true
+    /\ (forall has_token,
+         v_sub (view_rp has_token s now now) = Some (sub_of user client)
+         /\ v_scope (view_rp has_token s now now) = Some (filter_scopes client req_scope)
+         /\ v_nonce (view_rp has_token s now now) = nonce
+         /\ v_client (view_rp has_token s now now) = Some client).
   Proof.
-    intros. split; [apply views_agree|]. split; [apply views_project|]. repeat split.
+    intros. split; [apply views_agree|]. split; [apply views_project|].
+    split; [apply views_agree_implicit|]. intros; repeat split.
   Qed.
 End Composed.
